@@ -276,3 +276,32 @@ func hashToInt(hash []byte, n *big.Int) *big.Int {
 
 // Order returns the group order n of the key's curve (EC families only).
 func (k *Key) Order() *big.Int { return k.Type.Curve().Params().N }
+
+var (
+	lzMu    sync.Mutex
+	lzCache = map[string][]*Key{}
+)
+
+// LeadingZero returns keys of the given EC family (from pool, indices 1..max) whose X or Y coordinate starts
+// with a zero byte - the shape that exposes padding mistakes in JWK conversion. The scan is cached per process.
+func LeadingZero(t Type, pool string, max int) []*Key {
+	if t == Ed25519 {
+		return nil
+	}
+	id := fmt.Sprintf("%d/%s/%d", t, pool, max)
+	lzMu.Lock()
+	defer lzMu.Unlock()
+	if l, ok := lzCache[id]; ok {
+		return l
+	}
+	var out []*Key
+	for i := 1; i <= max && len(out) < 4; i++ {
+		k := Get(t, pool, i)
+		x, y := k.XY()
+		if x[0] == 0 || y[0] == 0 {
+			out = append(out, k)
+		}
+	}
+	lzCache[id] = out
+	return out
+}
